@@ -931,6 +931,9 @@ func c15Run(c *Ctx) {
 		for k := 0; k < c.N(3, 30); k++ {
 			h.runV(e, &c15Val{kind: 'b', bs: c15Garbage(r, n)}, c15Rest(r), true)
 		}
+		// always once with unrelated bytes behind the encoding and once with none (Size 0 included)
+		h.runV(e, &c15Val{kind: 'b', bs: c15Garbage(r, n)}, c15Garbage(r, 1+r.Intn(5)), true)
+		h.runV(e, &c15Val{kind: 'b', bs: c15Garbage(r, n)}, nil, true)
 		// outside the domain: Encode returns the argument unchanged
 		for _, l := range []int{n - 1, n + 1, n + 3} {
 			if l >= 0 {
